@@ -2,7 +2,7 @@
 #include "../harness/api_table.hpp"
 using namespace eng; using namespace gen; using ref::Int; using namespace api;
 
-struct ZV { Int v; }; struct QV { Int n, d; }; struct FV { Limbs l; long exp; bool neg; unsigned prec; };
+struct ZV { Int v; }; struct QV { Int n, d; }; struct FV { Limbs l; long exp; bool neg; unsigned prec; unsigned rawlow = 0; };   // rawlow: precision lowered with mpf_set_prec_raw after the value was stored (the value may then be longer than prec+1 limbs)
 static Int gz(ByteSource& in, size_t cap) { unsigned k = in.pick({6, 1, 1, 1}); if (k == 1) return Int(0); if (k == 2) return Int((long long)in.srange(-3, 3)); if (k == 3) return ref::pow2(in.range(0, 64 * cap)) * Int(in.flag() ? 1 : -1); return gen_int(in, cap); }
 static QV gq(ByteSource& in, size_t cap) { Int n = gz(in, cap), d = gen_int(in, cap, false); if (d.is_zero()) d = Int(1); Int g = ref::gcd(n, d); if (!n.is_zero()) { n = ref::tdiv(n, g); d = ref::tdiv(d, g); } else d = Int(1); return {n, d}; }
 static FV gf(ByteSource& in, unsigned prec) { FV f; f.prec = prec; size_t maxn = (prec + 127) / 64 + 1; size_t n = in.chance(20) ? 0 : (size_t)in.range(1, maxn); f.l = limbs_nz(in, n); if (n && in.chance(60)) { size_t z = (size_t)in.range(0, n - 1); std::fill(f.l.begin(), f.l.begin() + z, 0); } f.exp = n ? (long)in.srange(-4, 6) : 0; f.neg = n && in.flag(); return f; }
@@ -13,7 +13,8 @@ static bool zeq(mpz_srcptr a, mpz_srcptr b) { return a->_mp_size == b->_mp_size 
 // one set of objects: slot k of a class -> variable; several slots may share a variable (aliasing)
 struct Objs {
   mpz_t z[5]; mpq_t q[4]; mpf_t f[4]; int nz = 0, nq = 0, nf = 0; gmp_randstate_t r; bool rinit = false;
-  ~Objs() { for (int i = 0; i < nz; i++) mpz_clear(z[i]); for (int i = 0; i < nq; i++) mpq_clear(q[i]); for (int i = 0; i < nf; i++) mpf_clear(f[i]); if (rinit) gmp_randclear(r); }
+  unsigned long fprec0[4] = {0, 0, 0, 0};   // original precision of variables lowered with mpf_set_prec_raw (restored before clearing, as the manual requires)
+  ~Objs() { for (int i = 0; i < nz; i++) mpz_clear(z[i]); for (int i = 0; i < nq; i++) mpq_clear(q[i]); for (int i = 0; i < nf; i++) { if (fprec0[i]) mpf_set_prec_raw(f[i], fprec0[i]); mpf_clear(f[i]); } if (rinit) gmp_randclear(r); }
 };
 
 static void check(ByteSource& in, CaseInfo& ci) {
@@ -28,6 +29,7 @@ static void check(ByteSource& in, CaseInfo& ci) {
   // values per variable (outputs that are not aliased get junk)
   std::vector<Int> zv(nvz); std::vector<QV> qv(nvq); std::vector<FV> fv(nvf); static const unsigned PR[] = {64, 128, 192, 320};
   for (auto& x : zv) x = gz(in, cap); for (auto& x : qv) x = gq(in, std::min<size_t>(cap, 40)); for (auto& x : fv) x = gf(in, PR[in.range(0, 3)]);
+  if (strcmp(op->name, "mpf_swap") != 0) for (auto& x : fv) if (x.prec > 64 && in.chance(60)) { x.rawlow = 64 * (unsigned)in.range(1, x.prec / 64 - 1); ci.label("mpf_operand_longer_than_prec_raw"); }
   Args a0; a0.u[0] = in.pick({3, 2, 2}) == 0 ? in.u64() : in.flag() ? in.range(0, 300) : PALETTE[in.u8() & 7]; a0.u[1] = in.flag() ? in.range(0, 200) : in.u64(); a0.u[2] = in.flag() ? in.range(0, 40) : in.u64(); a0.s[0] = (int64_t)(in.flag() ? in.u64() : (uint64_t)in.srange(-300, 300)); a0.s[1] = 0;
   { uint64_t b = in.u64(); memcpy(&a0.d, &b, 8); if (!std::isfinite(a0.d)) a0.d = -2.75; } a0.base = (int)in.range(0, 255); a0.str = gen_string(in);
   uint64_t rseed = in.u64(); unsigned astate = in.pick({3, 2, 3}); bool shrink = astate == 0, roomy = astate == 2;
@@ -37,7 +39,7 @@ static void check(ByteSource& in, CaseInfo& ci) {
     o.nz = per_slot ? nzz : nvz; o.nq = per_slot ? nqq : nvq; o.nf = per_slot ? nff : nvf;
     for (int i = 0; i < o.nz; i++) { mpz_init(o.z[i]); mpz_from_int(o.z[i], zv[per_slot ? vz[i] : i]); }
     for (int i = 0; i < o.nq; i++) { mpq_init(o.q[i]); const QV& v = qv[per_slot ? vq[i] : i]; mpz_from_int(mpq_numref(o.q[i]), v.n); mpz_from_int(mpq_denref(o.q[i]), v.d); }
-    for (int i = 0; i < o.nf; i++) { const FV& v = fv[per_slot ? vf[i] : i]; mpf_init2(o.f[i], v.prec); put_f(o.f[i], v); }
+    for (int i = 0; i < o.nf; i++) { const FV& v = fv[per_slot ? vf[i] : i]; mpf_init2(o.f[i], v.prec); put_f(o.f[i], v); if (v.rawlow) { o.fprec0[i] = mpf_get_prec(o.f[i]); mpf_set_prec_raw(o.f[i], v.rawlow); } }
     gmp_randinit_default(o.r); gmp_randseed_ui(o.r, rseed); o.rinit = true; };
   setup_objs(A, false); setup_objs(R, true);
   Args aA = a0, aR = a0;
@@ -55,15 +57,35 @@ static void check(ByteSource& in, CaseInfo& ci) {
   REQUIRE(rA == rR, "%s: returned values differ between the aliased call and the call with distinct variables", op->name);
   for (int k = 0; k < g.zo; k++) { const char* e = mpz_illformed(aA.z[k]); REQUIRE(!e, "%s: output ill-formed in the aliased call: %s", op->name, e); REQUIRE(zeq(aA.z[k], aR.z[k]), "%s: mpz output %d differs between the aliased call and the call with distinct variables", op->name, k); }
   for (int k = 0; k < g.qo; k++) REQUIRE(zeq(mpq_numref(aA.q[k]), mpq_numref(aR.q[k])) && zeq(mpq_denref(aA.q[k]), mpq_denref(aR.q[k])), "%s: mpq output %d differs between the aliased call and the call with distinct variables", op->name, k);
-  for (int k = 0; k < g.fo; k++) REQUIRE(feq(aA.f[k], aR.f[k]), "%s: mpf output %d differs between the aliased call and the call with distinct variables", op->name, k);
+  for (int k = 0; k < g.fo; k++) {
+    if (feq(aA.f[k], aR.f[k])) continue;
+    // recorded finding: an in-place call on a variable that holds more than prec+1 limbs (after mpf_set_prec_raw) may leave the excess low limbs in place where
+    // the call with a distinct destination truncates to prec+1 limbs: the two results then agree exactly after truncation to the destination precision
+    mpf_srcptr fa = aA.f[k], fr = aR.f[k]; size_t na = (size_t)std::abs(fa->_mp_size), nr = (size_t)std::abs(fr->_mp_size), lim = (size_t)fa->_mp_prec + 1;
+    bool keeps_excess = na > lim && nr <= lim && nr >= 1 && (fa->_mp_size < 0) == (fr->_mp_size < 0) && fa->_mp_exp == fr->_mp_exp && memcmp(fa->_mp_d + na - nr, fr->_mp_d, nr * 8) == 0;
+    if (keeps_excess && nr < lim) for (size_t i = na - lim; i < na - nr; i++) if (fa->_mp_d[i] != 0) keeps_excess = false;
+    if (keeps_excess && is_known("mpf-inplace-keeps-excess-limbs")) { ci.excluded.push_back("mpf-inplace-keeps-excess-limbs"); ci.label(op->name); continue; }
+    REQUIRE(false, "%s: mpf output %d differs between the aliased call and the call with distinct variables%s", op->name, k, keeps_excess ? " (the in-place result keeps more than prec+1 limbs; truncated to prec+1 limbs the two agree)" : "");
+  }
   // operands that are not outputs keep their value (in both calls)
   auto is_out_var = [&](const int* v, int nout, int var) { for (int k = 0; k < nout; k++) if (v[k] == var) return true; return false; };
   for (int k = g.zo; k < nzz; k++) { REQUIRE(int_from_mpz(aR.z[k]) == zv[vz[k]], "%s: input-only mpz operand %d was modified (distinct variables)", op->name, k); if (!is_out_var(vz, g.zo, vz[k])) REQUIRE(int_from_mpz(aA.z[k]) == zv[vz[k]], "%s: input-only mpz operand %d was modified", op->name, k); }
   for (int k = g.qo; k < nqq; k++) { const QV& v = qv[vq[k]]; REQUIRE(int_from_mpz(mpq_numref(aR.q[k])) == v.n && int_from_mpz(mpq_denref(aR.q[k])) == v.d, "%s: input-only mpq operand %d was modified (distinct variables)", op->name, k); if (!is_out_var(vq, g.qo, vq[k])) REQUIRE(int_from_mpz(mpq_numref(aA.q[k])) == v.n && int_from_mpz(mpq_denref(aA.q[k])) == v.d, "%s: input-only mpq operand %d was modified", op->name, k); }
   for (int k = g.fo; k < nff; k++) { mpf_t t; mpf_init2(t, fv[vf[k]].prec); put_f(t, fv[vf[k]]); bool okR = feq(aR.f[k], t), okA = is_out_var(vf, g.fo, vf[k]) || feq(aA.f[k], t); mpf_clear(t); REQUIRE(okR && okA, "%s: input-only mpf operand %d was modified", op->name, k); }
 }
+// deterministic reproduction of the recorded finding
+static void fixed_case(unsigned k, CaseInfo& ci) {
+  if (k == 0) {
+    mpf_t x, y, r; mpf_init2(x, 192); mpf_init2(y, 192); mpf_init2(r, 64); unsigned long p0 = mpf_get_prec(x);
+    for (mpf_ptr v : {x, y}) { v->_mp_d[0] = 0x1111; v->_mp_d[1] = 0x2222; v->_mp_d[2] = 0x3333; v->_mp_d[3] = 5; v->_mp_size = 4; v->_mp_exp = 1; }
+    mpf_set_prec_raw(x, 64); ci.desc = "x = 4 limbs (5.3333|2222|1111 in base 2^64), mpf_set_prec_raw(x, 64); mpf_add_ui(x, x, 0) against mpf_add_ui(r, y, 0) with r of 64 bits";
+    mpf_add_ui(x, x, 0); mpf_add_ui(r, y, 0); bool same = feq(x, r); int nx = x->_mp_size, nr = r->_mp_size;
+    mpf_set_prec_raw(x, p0); mpf_clear(x); mpf_clear(y); mpf_clear(r);
+    REQUIRE(same, "mpf_add_ui(x, x, 0) in place leaves %d limbs in a variable of 64-bit precision, the call with a distinct 64-bit destination stores %d limbs: the results differ", nx, nr);
+  }
+}
 namespace eng {
 PropDef g_prop = {"C05",
-  "Cases: one function from the API table (harness/api_table.hpp; every mpz/mpq/mpf entry point with at least one output and one same-typed input, or at least two same-typed inputs) x an alias pattern (each input is a fresh variable, the same variable as an earlier input, or the same variable as one of the outputs; outputs are never aliased to each other, as the manual forbids for q/r, root/rem, g/s/t, fn/fnsub1) x operand values (zero, small, powers of two, multi-limb up to the scale cap; canonical rationals; hand-built floats of precisions 64..320 with low zero limbs) x destination allocation state (shrunk to the minimum so the aliased destination must be reallocated, or roomy). mpf: the aliased output has the source's precision in both calls; random functions: the reference call uses an identically seeded state. Oracle (metamorphic): the call with the alias pattern and the call with distinct variables holding the same values give identical outputs and return values; every operand that is not an output is bit-for-bit unchanged afterwards. Non-trivial: a non-empty alias pattern. Distinct = hash of all decoded choices. mpn overlaps permitted by the manual are exercised by C01/C02/C03/C10 (in place, rp=sp+-k).",
-  check, nullptr, {"alias:output=input", "alias:input=input", "realloc_while_aliased", "mpz_mul", "mpz_gcdext", "mpz_tdiv_qr", "mpz_powm", "mpq_add", "mpq_mul_2exp", "mpf_add", "mpf_div", "mpf_sqrt"}};
+  "Cases: one function from the API table (harness/api_table.hpp; mpf variables in 1 of 4 cases with their precision lowered by mpf_set_prec_raw after the value was stored, so that the value is longer than prec+1 limbs; every mpz/mpq/mpf entry point with at least one output and one same-typed input, or at least two same-typed inputs) x an alias pattern (each input is a fresh variable, the same variable as an earlier input, or the same variable as one of the outputs; outputs are never aliased to each other, as the manual forbids for q/r, root/rem, g/s/t, fn/fnsub1) x operand values (zero, small, powers of two, multi-limb up to the scale cap; canonical rationals; hand-built floats of precisions 64..320 with low zero limbs) x destination allocation state (shrunk to the minimum so the aliased destination must be reallocated, or roomy). mpf: the aliased output has the source's precision in both calls; random functions: the reference call uses an identically seeded state. Oracle (metamorphic): the call with the alias pattern and the call with distinct variables holding the same values give identical outputs and return values; every operand that is not an output is bit-for-bit unchanged afterwards. Non-trivial: a non-empty alias pattern. Distinct = hash of all decoded choices. mpn overlaps permitted by the manual are exercised by C01/C02/C03/C10 (in place, rp=sp+-k).",
+  check, nullptr, {"alias:output=input", "alias:input=input", "realloc_while_aliased", "mpz_mul", "mpz_gcdext", "mpz_tdiv_qr", "mpz_powm", "mpq_add", "mpq_mul_2exp", "mpf_add", "mpf_div", "mpf_sqrt", "mpf_operand_longer_than_prec_raw"}, fixed_case};
 }
